@@ -20,116 +20,131 @@ def temp_sites(ctx, eff, root):
     return out
 
 
-def _names_bound_to(f, call):
-    """Local names that hold the temp file object or its name."""
-    names = set()
-    st = stmt_of(call)
-    if isinstance(st, ast.Assign):
-        for t in st.targets:
-            if isinstance(t, ast.Name):
-                names.add(t.id)
-    # one propagation step: x = tmp.name / with open(tmp) as fout -> fout.name
-    changed = True
-    while changed:
-        changed = False
-        for n in ast.walk(f.node):
-            if isinstance(n, ast.Assign) and isinstance(n.targets[0], ast.Name) and n.targets[0].id not in names:
-                if any(isinstance(x, ast.Name) and x.id in names for x in ast.walk(n.value)) and \
-                        isinstance(n.value, (ast.Name, ast.Attribute)):
-                    names.add(n.targets[0].id)
-                    changed = True
-            if isinstance(n, ast.With):
-                for it in n.items:
-                    if isinstance(it.context_expr, ast.Call) and is_name(it.context_expr.func, "open") and it.context_expr.args and \
-                            any(isinstance(x, ast.Name) and x.id in names for x in ast.walk(it.context_expr.args[0])) and \
-                            isinstance(it.optional_vars, ast.Name) and it.optional_vars.id not in names:
-                        names.add(it.optional_vars.id)
-                        changed = True
-    return names
+def _derived(v):
+    """The temp creation(s) a value is derived from, by its provenance name."""
+    n = getattr(v, "name", None)
+    if n is None and hasattr(v, "render"):
+        n = v.render()
+    return n if isinstance(n, str) and "tempfile." in n else None
 
 
 def r1_r2(ctx, eff):
+    """Temp files of an import, judged on the abstract traces of the routines that create them: how they are named, what is
+    written where, and that each is removed (or handed to a finalizer) on every normal path unless the caller keeps them."""
+    from ..absint import Interp, Sym, Opaque, Unsupported
     cd = require_func(ctx, "create.create_db")
     sites = temp_sites(ctx, eff, cd)
     ctx.floor("R1", len(sites), 1, "temp-file creation sites in the import call graph")
+    entries = [(ctx.proj.cls("create._GFFDBCreator").methods.get("_update_relations"), "method"),
+               (ctx.proj.cls("create._GTFDBCreator").methods.get("_update_relations"), "method"),
+               (ctx.proj.maybe_func("iterators.DataIterator"), "function")]
+    ctx.require(all(e[0] is not None for e in entries), "anchor vanished: an importer's _update_relations or iterators.DataIterator")
+    covered = set()
+    for f, _k in entries:
+        covered |= eff.reach(f.qual) | {f.qual}
     for f, c, d in sites:
         ok = d in TEMP_MAKERS
-        ctx.ob("R1", ok, "intermediate files get a per-call unique name from tempfile (NamedTemporaryFile/mkstemp)", node=c, func=f,
-               sig="%s creates its temp file with %s" % (f.name, d))
-        for k in ("dir", "prefix"):
-            v = kwarg(c, k)
-            ctx.ob("R1", v is None, "the temp file's directory/prefix is left to tempfile", node=c, func=f,
-                   sig="%s temp %s=%s" % (f.name, k, norm(v) if v is not None else "default"), nontrivial=False)
-    # every write-open in the import call graph targets a tempfile-derived name
+        ctx.ob("R1", ok, "intermediate files get a per-call unique name from tempfile (NamedTemporaryFile/mkstemp)", node=c, func=f, sig="%s creates its temp file with %s" % (f.name, d))
+        ctx.ob("R1", f.qual in covered, "every temp-file creation of an import is reached from an evaluated routine", node=c, func=f,
+               sig="%s: temp creation evaluated" % f.name if f.qual in covered else "%s: temp creation outside the evaluated routines" % f.name, nontrivial=False)
+
+    def run(f, kind, keep):
+        it = Interp(ctx)
+        it.empty_loops = True
+        it.MAX_TRACES = max(getattr(it, "MAX_TRACES", 0), 4096)
+        it.summaries["create._DBCreator._insert"] = lambda i, pos, kw, node: None
+        it.summaries["create._DBCreator._id_handler"] = lambda i, pos, kw, node: "K"
+        it.summaries["create._DBCreator._do_merge"] = lambda i, pos, kw, node: (pos[0], "merge")
+        it.summaries["bins.bins"] = lambda i, pos, kw, node: Sym("bin", "int", True)
+        try:
+            if kind == "method":
+                so = Opaque("self", "obj")
+                so.attrs.update(dict(_keep_tempfiles=keep, disable_infer_genes=False, disable_infer_transcripts=False, subfeature="exon", transcript_key="transcript_id",
+                                     gene_key="gene_id", verbose=Sym("verbose", "any", None), merge_strategy="merge", force_merge_fields=[]))
+                return it.run(f, {}, self_obj=so)
+            return it.run(f, {"data": Sym("text", "str", True), "from_string": True})
+        except Unsupported as e:
+            ctx.require(False, "%s outside the analysable subset: %s" % (f.qual, e))
+    for f, kind in entries:
+        for keep in ((False, True, ".sfx") if kind == "method" else (None,)):
+            traces = run(f, kind, keep)
+            label = "%s%s" % (f.qual.split(".", 1)[1], "" if keep is None else " (_keep_tempfiles=%r)" % (keep,))
+            for t in traces:
+                if t.result[0] != "return":
+                    continue
+                ev = t.events
+                name_of = lambda e: getattr(e[1], "name", None) if e[0] == "call-opaque" and not isinstance(e[2], str) else None
+                makes = [e for e in ev if (name_of(e) or "").startswith("tempfile.")]
+                for e in makes:
+                    ctx.ob("R1", name_of(e) in TEMP_MAKERS, "intermediate files get a per-call unique name from tempfile (NamedTemporaryFile/mkstemp)", func=f, sig="%s: %s" % (label, name_of(e)))
+                    kw = e[3] if len(e) > 3 and isinstance(e[3], dict) else {}
+                    ctx.ob("R1", not ({"dir", "prefix"} & set(kw)), "the temp file's directory/prefix is left to tempfile", func=f,
+                           sig="%s: temp keywords %s" % (label, sorted(kw)), nontrivial=False)
+                opens = [e for e in ev if e[0] == "open" and isinstance(e[2], str) and set(e[2]) & set("wax+")]
+                opens += [("open", e[2][0] if e[2] else None, "w") for e in ev if name_of(e) == "os.fdopen"]
+                for e in opens:
+                    ctx.ob("R1", _derived(e[1]) is not None, "files written during an import are the import's own tempfile-named files", func=f,
+                           sig="%s writes %s" % (label, "its temp file" if _derived(e[1]) else getattr(e[1], "name", repr(e[1]))))
+                unl = [e for e in ev if name_of(e) in ("os.unlink", "os.remove") and e[2] and _derived(e[2][0])]
+                fin = [e for e in ev if name_of(e) in ("weakref.finalize", "atexit.register") and any(_derived(x) for x in e[2])]
+                if not makes:
+                    continue
+                if kind == "method":
+                    if not keep:
+                        ok = len(unl) >= len(makes)
+                        ctx.ob("R2", ok, "the temp file of %s is removed on every normal path to the return (only `_keep_tempfiles` may keep it)" % f.name, func=f,
+                               sig="%s: temp file unlinked" % label if ok else "%s: a path returns without unlinking the temp file" % label)
+                        if ok and opens:
+                            wr = [i for i, e in enumerate(ev) if e[0] == "call-opaque" and e[2] == "write"]
+                            ui = [i for i, e in enumerate(ev) if e in unl]
+                            ctx.ob("R2", not wr or min(ui) > max(wr), "the file is removed only after it has been written and read back", func=f,
+                                   sig="%s: unlink after the last write" % label, nontrivial=False)
+                    else:
+                        ctx.ob("R2", True, "with _keep_tempfiles the intermediate file may stay", func=f, sig="%s: %d unlink(s)" % (label, len(unl)), nontrivial=False)
+                else:
+                    ok = bool(fin) or bool(unl)
+                    ctx.ob("R2", ok, "a finalizer that removes the temp file of %s is registered on every path to the return" % f.name, func=f,
+                           sig="%s: temp file removed by a registered finalizer" % label if ok else "%s: temp file (delete=False) is never removed" % label)
+                    for e in fin:
+                        fns = [x for x in e[2] if hasattr(x, "func")]
+                        okf = False
+                        for fv in fns:
+                            r = Interp(ctx).run(fv.func, {fv.func.params[0]: Sym("path", "str", True)})
+                            okf = okf or any(ev2[0] == "call-opaque" and not isinstance(ev2[2], str) and getattr(ev2[1], "name", None) in ("os.unlink", "os.remove") and ev2[2] and getattr(ev2[2][0], "name", None) == "path"
+                                             for t2 in r for ev2 in t2.events)
+                        ctx.ob("R2", okf, "the registered finalizer unlinks the path it is given", func=f, sig="%s: finalizer %s" % (label, "unlinks its argument" if okf else "does not unlink"), nontrivial=False)
+    # who writes files: every write-open in the import closure is one of the temp-file writes seen above
+    seen_opens = set()
+    for f, kind in entries:
+        for keep in ((False,) if kind == "method" else (None,)):
+            for t in run(f, kind, keep):
+                for e in t.events:
+                    if e[0] == "open" and _derived(e[1]):
+                        seen_opens.add(getattr(e[3], "lineno", None))
     for e in eff.transitive(cd.qual):
         if e[1] == "FS" and e[2] == "write-open":
-            f = ctx.proj.funcs[e[0]]
             call = e[4]
-            tgt = call.args[0] if call.args else None
-            ok = False
-            if isinstance(tgt, (ast.Name, ast.Attribute)):
-                base = tgt
-                while isinstance(base, ast.Attribute):
-                    base = base.value
-                if isinstance(base, ast.Name):
-                    for fs, c, d in sites:
-                        if fs is f and base.id in _names_bound_to(f, c):
-                            ok = True
-            ctx.ob("R1", ok, "files written during an import are the import's own tempfile-named files", node=call, func=f,
-                   sig="%s writes %s" % (f.name, norm(tgt) if tgt is not None else "?"))
-    # ------------------------------------------------------------------ R2
-    for f, c, d in sites:
-        delete = kwarg(c, "delete")
-        self_deleting = d == "tempfile.NamedTemporaryFile" and (delete is None or (isinstance(delete, ast.Constant) and delete.value is True))
-        if self_deleting:
-            ctx.ob("R2", True, "temp file removes itself on close", node=c, func=f, sig="%s: self-deleting temp file" % f.name)
-            continue
-        cfg = cfg_of(f)
-        names = _names_bound_to(f, c)
-        start = cfg.node_for(c)
-        unlinks = []
-        for u in calls_in(f.node):
-            du = ctx.proj.resolve_call(u, f)[1]
-            if du in ("os.unlink", "os.remove") and u.args and any(isinstance(x, ast.Name) and x.id in names for x in ast.walk(u.args[0])):
-                unlinks.append(u)
-        finalizers = []
-        for u in calls_in(f.node):
-            du = ctx.proj.resolve_call(u, f)[1] or ""
-            if du in ("weakref.finalize", "atexit.register") and any(isinstance(x, ast.Name) and x.id in names for a in u.args for x in ast.walk(a)):
-                finalizers.append(u)
-        if unlinks:
-            # every normal path from the creation to the exit passes an unlink, the only bypass being `_keep_tempfiles`
-            un = {cfg.node_for(u).id for u in unlinks}
-            reach = cfg.reachable(start.id, avoid=un)
-            escapes = cfg.exit.id in reach
-            bypass_ok = True
-            if escapes:
-                # acceptable only when each unlink is guarded solely by `not self._keep_tempfiles`
-                for u in unlinks:
-                    g = sorted(("" if pol else "not ") + norm(t) for t, pol in guards_of(u, f.node))
-                    if g != ["not self._keep_tempfiles"]:
-                        bypass_ok = False
-                # and removing that guard closes every escape
-                guard_ifs = {id(p) for u in unlinks for p in parents(u) if isinstance(p, ast.If)}
-                ifn = {cfg.node_for(p).id for u in unlinks for p in parents(u) if isinstance(p, ast.If) and p is not f.node}
-                reach2 = cfg.reachable(start.id, avoid=un | ifn)
-                if cfg.exit.id in reach2:
-                    bypass_ok = False
-            ok = (not escapes) or bypass_ok
-            ctx.ob("R2", ok, "the temp file of %s is removed on every normal path to the return (only `_keep_tempfiles` may keep it)" % f.name,
-                   node=c, func=f, sig="%s: temp file unlinked on all paths" % f.name if ok else "%s: a path returns without unlinking the temp file" % f.name)
-        elif finalizers:
-            fn = {cfg.node_for(u).id for u in finalizers}
-            reach = cfg.reachable(start.id, avoid=fn)
-            ok = cfg.exit.id not in reach
-            ctx.ob("R2", ok, "a finalizer that removes the temp file of %s is registered on every path to the return" % f.name, node=c, func=f,
-                   sig="%s: temp file removed by a registered finalizer" % f.name if ok else "%s: a path returns without registering the finalizer" % f.name)
-        else:
-            ctx.ob("R2", False,
-                   "every intermediate file is removed when the run finishes: the creator unlinks it before returning, or registers a "
-                   "finalizer on the object that still needs it", node=c, func=f,
-                   sig="%s: temp file (delete=False) is never removed" % f.name,
-                   detail="%s creates %s and neither unlinks %s nor registers a finalizer" % (f.qual, norm(c), sorted(names)))
+            ok = call.lineno in seen_opens
+            ctx.ob("R1", ok, "files written during an import are the import's own tempfile-named files", node=call, func=ctx.proj.funcs[e[0]],
+                   sig="%s writes %s" % (e[0].split(".")[-1], "its temp file" if ok else norm(call.args[0]) if call.args else "?"))
+    # a failed construction after the temp file was written must not leave it behind
+    di = entries[2][0]
+    it = Interp(ctx)
+    from ..absint import RaiseEx
+
+    def boom(i, pos, kw, node):
+        raise RaiseEx("ValueError", "cannot parse", node)
+    it.summaries["iterators._BaseIterator.__init__"] = boom
+    it.summaries["iterators._FileIterator.__init__"] = boom
+    try:
+        traces = it.run(di, {"data": Sym("text", "str", True), "from_string": True})
+    except Unsupported as e:
+        traces = []
+    for t in traces:
+        if t.result[0] == "raise":
+            unl = [e for e in t.events if e[0] == "call-opaque" and not isinstance(e[2], str) and getattr(e[1], "name", None) in ("os.unlink", "os.remove")]
+            ctx.ob("R2", bool(unl), "when the iterator cannot be built the temp file is removed before the error propagates", func=di,
+                   sig="DataIterator(from_string) failing: %d unlink(s)" % len(unl), nontrivial=False)
 
 
 def r3(ctx, eff):
